@@ -53,7 +53,7 @@ Recheck == /\ lpc = "rc" /\ lpc' = "wait"
 Next == \/ \E p \in Prod : Enq(p) \/ Cas(p) \/ Wr(p)
         \/ Wake \/ DrainOne \/ DrainEnd \/ Store0 \/ Recheck
 
-TypeOK == /\ q >= 0 /\ flag \in {0, 1} /\ lpc \in {"wait", "drain", "s0", "rc"}
+TypeOK == /\ q \in Nat /\ flag \in {0, 1} /\ lpc \in {"wait", "drain", "s0", "rc"}
           /\ ppc \in [Prod -> {"idle", "cas", "wr"}]
 
 \* tasks are queued, the loop is blocked, nothing is ready: then somebody is still on the way to wake it
